@@ -151,7 +151,7 @@ func Build(config string) core.BuildFunc {
 		h.sc = genScenario(w.T, config == "faulty")
 		sc := h.sc
 		wto := 250 * time.Millisecond
-		h.r = rig.New(w, rig.Opts{Active: sc.Active, Equip: sc.Equip, T3: sc.T3, T5: 300 * time.Millisecond, T6: 300 * time.Millisecond, T7: 2 * time.Second, T8: time.Second,
+		h.r = rig.New(w, rig.Opts{TraceTraffic: w.T.Choose("trace", 4) == 0, Active: sc.Active, Equip: sc.Equip, T3: sc.T3, T5: 300 * time.Millisecond, T6: 300 * time.Millisecond, T7: 2 * time.Second, T8: time.Second,
 			BackoffInit: 30 * time.Millisecond, BackoffMult: 2, CloseTimeout: time.Second, WriteTimeout: &wto, AsyncErrHandler: true, ValidateSession: sc.Validate})
 		r := h.r
 		r.N.KeepLog = true
